@@ -217,23 +217,8 @@ func halfFloat(a *anchors, r *sx.Rep) {
 		if !ok || bo.Op != token.AND {
 			return
 		}
-		m, isM := constU64(bo.Y)
-		x := bo.X
-		if !isM {
-			m, isM = constU64(bo.X)
-			x = bo.Y
-		}
-		if !isM {
-			return
-		}
-		if x == ssa.Value(h) {
-			got[ext{0, m}] = true
-			return
-		}
-		if sh, ok := x.(*ssa.BinOp); ok && sh.Op == token.SHR && sh.X == ssa.Value(h) {
-			if s, isS := constU64(sh.Y); isS {
-				got[ext{s, m}] = true
-			}
+		if sh, m, ok := fieldExtract(bo, h); ok {
+			got[ext{sh, m}] = true
 		}
 	})
 	want := []ext{{10, 0x1f}, {0, 0x3ff}, {15, 0x1}}
@@ -247,6 +232,11 @@ func halfFloat(a *anchors, r *sx.Rep) {
 		if !got[w] {
 			okH = false
 		}
+	}
+	defer halfCases(a, r, fn)
+	if len(got) == 0 {
+		r.Undecide("HALF-1", key, pos, "no (h >> s) & mask extraction of the parameter recognised")
+		return
 	}
 	if okH {
 		r.Hold("HALF-1", key, pos, "bit fields "+strings.Join(desc, ", ")+" = mantissa, exponent, sign of IEEE binary16")
@@ -264,6 +254,8 @@ type propEntry struct {
 	fields map[string]string // field name -> constant string | "fmt:<format>(<arg>)" | "?"
 	pos    token.Pos
 	alloc  *ssa.Alloc
+	fn     *ssa.Function
+	fmtIdx map[string]ssa.Value // field -> the single integer argument of its fmt.Sprintf
 }
 
 var propTypeRe = regexp.MustCompile(`^Vector([1-4])Property(Writer|Reader)$`)
@@ -285,7 +277,7 @@ func propEntries(a *anchors, fn *ssa.Function, kind string) []propEntry {
 			return
 		}
 		st := n.Underlying().(*types.Struct)
-		pe := propEntry{typ: n.Obj().Name(), dim: int(m[1][0] - '0'), fields: map[string]string{}, pos: al.Pos(), alloc: al}
+		pe := propEntry{typ: n.Obj().Name(), dim: int(m[1][0] - '0'), fields: map[string]string{}, pos: al.Pos(), alloc: al, fn: fn, fmtIdx: map[string]ssa.Value{}}
 		for _, s := range e.Stores(al) {
 			if len(s.Ad.Path) != 1 {
 				continue
@@ -305,8 +297,12 @@ func propEntries(a *anchors, fn *ssa.Function, kind string) []propEntry {
 					if sl, ok := v.Call.Args[1].(*ssa.Slice); ok {
 						if va, ok := sl.X.(*ssa.Alloc); ok {
 							var parts []string
-							for _, vs := range e.Stores(va) {
+							sts := e.Stores(va)
+							for _, vs := range sts {
 								parts = append(parts, e.Int(stripIface(vs.St.Val)).String())
+							}
+							if len(sts) == 1 {
+								pe.fmtIdx[fname] = stripIface(sts[0].St.Val)
 							}
 							arg = strings.Join(parts, ",")
 						}
@@ -470,6 +466,7 @@ func plySplat(a *anchors, r *sx.Rep) {
 	if c, ok := a.ply.Pkg.Scope().Lookup("Float").(*types.Const); ok && c.Val().Kind() == constant.String {
 		floatVal = constant.StringVal(c.Val())
 	}
+	harmonicCount(a, r, wfn, writers)
 	seenAttr := map[string]bool{}
 	for _, w := range writers {
 		attr := w.fields["ModelAttribute"]
@@ -537,5 +534,149 @@ func plySplat(a *anchors, r *sx.Rep) {
 		if !seenAttr[v] {
 			r.Violate("LAY-2", wname+"#"+v, a.p.Pos(wfn.Pos()), "the splat attribute "+v+" is not exported")
 		}
+	}
+}
+
+var fRestRe = regexp.MustCompile(`^f_rest_(\d+)$`)
+
+// harmonicCount decides SH-COUNT: the export emits exactly the property writers
+// f_rest_0 … f_rest_(3·15−1): 3 colour channels × the 15 coefficients of SH
+// degrees 1–3 (published 3DGS PLY layout; 15 is read from the SPZ
+// ShDimensions table), contiguous from 0.
+func harmonicCount(a *anchors, r *sx.Rep, wfn *ssa.Function, writers []propEntry) {
+	key := a.p.FuncName(wfn) + "#harmonics.count"
+	pos := a.p.Pos(wfn.Pos())
+	maxDim := int64(15)
+	src := "published table"
+	if len(a.shTable) > 0 {
+		maxDim = 0
+		for _, v := range a.shTable {
+			if v > maxDim {
+				maxDim = v
+			}
+		}
+		src = "max of spz.Header.ShDimensions"
+	}
+	want := 3 * maxDim
+	consts := map[int64]bool{}
+	var dyn []propEntry
+	for _, w := range writers {
+		attr := w.fields["ModelAttribute"]
+		if m := fRestRe.FindStringSubmatch(attr); m != nil {
+			var k int64
+			fmt.Sscan(m[1], &k)
+			consts[k] = true
+		}
+		if strings.HasPrefix(attr, "fmt:f_rest_%d(") {
+			dyn = append(dyn, w)
+		}
+	}
+	law := fmt.Sprintf("f_rest_0 … f_rest_%d (%d = 3 colour channels × %d coefficients, %s)", want-1, want, maxDim, src)
+	switch {
+	case len(dyn) == 0 && len(consts) == 0:
+		r.Violate("SH-COUNT", key, pos, "no f_rest_<k> property writers are emitted; the splat PLY layout has "+law)
+		return
+	case len(dyn) == 0:
+		okC := int64(len(consts)) == want
+		for k := int64(0); k < want; k++ {
+			if !consts[k] {
+				okC = false
+			}
+		}
+		if okC {
+			r.Hold("SH-COUNT", key, pos, fmt.Sprintf("%d literal writers ", want)+law)
+		} else {
+			r.Violate("SH-COUNT", key, pos, fmt.Sprintf("%d literal f_rest writers are emitted; the layout has %s", len(consts), law))
+		}
+		return
+	case len(dyn) > 1 || len(consts) > 0:
+		r.Undecide("SH-COUNT", key, pos, "harmonics are emitted by more than one writer site")
+		return
+	}
+	w := dyn[0]
+	pos = a.p.Pos(w.pos)
+	idx := w.fmtIdx["ModelAttribute"]
+	if idx == nil {
+		r.Undecide("SH-COUNT", key, pos, "the harmonic index is not a single integer argument of the name format")
+		return
+	}
+	we := sx.NewEnv(wfn)
+	var idxPoly sx.Poly
+	var site ssa.Instruction = w.alloc
+	if w.fn == wfn {
+		idxPoly = we.Int(idx)
+	} else {
+		// built in a helper: the index must be (an offset of) a parameter bound at exactly one call site of the export function
+		he := sx.NewEnv(w.fn)
+		p := he.Int(idx)
+		var param *ssa.Parameter
+		for _, q := range w.fn.Params {
+			if p.Has(q.Name()) {
+				param = q
+			}
+		}
+		if param == nil || len(p.Symbols()) != 1 {
+			r.Undecide("SH-COUNT", key, pos, "the harmonic index built in helper "+w.fn.Name()+" is not one of its parameters")
+			return
+		}
+		var calls []*ssa.Call
+		ssau.AllInstrs(wfn, func(in ssa.Instruction) {
+			if c, ok := in.(*ssa.Call); ok && c.Call.StaticCallee() == w.fn {
+				calls = append(calls, c)
+			}
+		})
+		if len(calls) != 1 {
+			r.Undecide("SH-COUNT", key, pos, fmt.Sprintf("helper %s is called %d times", w.fn.Name(), len(calls)))
+			return
+		}
+		var arg ssa.Value
+		for i, q := range w.fn.Params {
+			if q == param && i < len(calls[0].Call.Args) {
+				arg = calls[0].Call.Args[i]
+			}
+		}
+		if arg == nil {
+			r.Undecide("SH-COUNT", key, pos, "helper argument not found")
+			return
+		}
+		idxPoly = p.Subst(param.Name(), we.Int(arg))
+		site = calls[0]
+	}
+	ivs, ok := we.EnclosingIVs(site.Block())
+	if !ok || len(ivs) != 1 {
+		r.Undecide("SH-COUNT", key, pos, "the harmonic writers are not emitted in one canonical counted loop")
+		return
+	}
+	iv := ivs[0]
+	for _, l := range iv.Loop.Latch {
+		if !site.Block().Dominates(l) {
+			r.Undecide("SH-COUNT", key, pos, "the harmonic writer is emitted conditionally inside the loop")
+			return
+		}
+	}
+	for _, x := range sx.LoopExitTargets(iv.Loop) {
+		if x != iv.NormalExit() && !sx.ErrorOnly(x, nil) {
+			r.Violate("SH-COUNT", key, pos, "the harmonics loop can be left early")
+			return
+		}
+	}
+	coef, rest, lin := idxPoly.Linear(iv.Sym)
+	c1, isC1 := coef.IsConst()
+	c0, isC0 := rest.IsConst()
+	lo, isLo := iv.Lo.IsConst()
+	hi, isHi := iv.Hi.IsConst()
+	if !lin || !isC1 || !isC0 || !isLo || !isHi {
+		r.Undecide("SH-COUNT", key, pos, fmt.Sprintf("index %s over [%s,%s) is not a constant range", idxPoly, iv.Lo, iv.Hi))
+		return
+	}
+	if c1 != 1 {
+		r.Violate("SH-COUNT", key, pos, fmt.Sprintf("harmonic indices advance in steps of %d; the layout has contiguous %s", c1, law))
+		return
+	}
+	first, last := lo+c0, hi+c0-1
+	if first == 0 && last == want-1 {
+		r.Hold("SH-COUNT", key, pos, fmt.Sprintf("writers f_rest_%d … f_rest_%d emitted once each = ", first, last)+law)
+	} else {
+		r.Violate("SH-COUNT", key, pos, fmt.Sprintf("the export emits f_rest_%d … f_rest_%d (%d properties); the splat PLY layout has %s", first, last, last-first+1, law))
 	}
 }
